@@ -341,6 +341,7 @@ type decObs struct {
 	Left int         `json:"left"`
 	Rest []int       `json:"rest"`
 	Why  string      `json:"-"`
+	GoOn bool        `json:"-"` // the same decoder could read on after the value
 }
 
 func readTree(dec *w.Decoder) (*node, error) {
@@ -450,6 +451,12 @@ func decoders(kind, g string) []string {
 
 // decode feeds data to a fresh real Decoder of the given side and calls one decoding function.
 func decode(kind, f string, side w.ConnSide, data []byte) (o decObs) {
+	return decodeThen(kind, f, side, data, false)
+}
+
+// decodeThen: with goOn the same decoder is asked for the first tokens of what follows the value (SP, the atom Z):
+// a decoder that handed out the right value but is left in a state in which nothing more can be read is no good
+func decodeThen(kind, f string, side w.ConnSide, data []byte, goOn bool) (o decObs) {
 	rd := bytes.NewReader(data)
 	br := bufio.NewReader(rd)
 	dec := w.NewDecoder(br, side)
@@ -576,6 +583,13 @@ func decode(kind, f string, side w.ConnSide, data []byte) (o decObs) {
 	if dec.Err() != nil {
 		o.Err = true
 		o.Why = dec.Err().Error()
+	}
+	if goOn && o.Ok && !o.Err {
+		var a string
+		o.GoOn = dec.ExpectSP() && dec.ExpectAtom(&a) && a == "Z"
+		if !o.GoOn {
+			o.Why = fmt.Sprintf("after the value: %v (atom %q)", dec.Err(), a)
+		}
 	}
 	rest, _ := io.ReadAll(br)
 	o.Left = len(rest)
@@ -797,6 +811,9 @@ func runCase(c *caseT) (string, decObs) {
 			return "value", o
 		case string(toBytes(o.Rest)) != sentinel || o.Left != len(sentinel):
 			return "leftover", o
+		}
+		if o2 := decodeThen(c.Line.K, c.F, side, data, true); !o2.GoOn {
+			return "poisoned", o2
 		}
 	}
 	return "", o
